@@ -26,12 +26,18 @@ func main() {
 	out := flag.String("out", "", "result file")
 	replay := flag.String("replay", "", "comma separated choice vector to replay (prints the trace)")
 	replayFile := flag.String("replayfile", "", "replay artefact written by vcheck")
+	c16child := flag.String("c16child", "", "internal: run C16 documents in-process")
+	c16from := flag.Int("c16from", 0, "")
 	cpuprof := flag.String("cpuprofile", "", "")
 	flag.Parse()
 	if *cpuprof != "" {
 		f, _ := os.Create(*cpuprof)
 		pprof.StartCPUProfile(f)
 		defer pprof.StopCPUProfile()
+	}
+	if *c16child != "" {
+		props.C16Child(*c16child, *c16from)
+		return
 	}
 	units := props.Units(*prop, *tier)
 	if units == nil {
